@@ -1013,7 +1013,7 @@ def foreign_cases(rng, tier):
         except Exception:
             continue
         if txt is not None:
-            out.append(mk_raw(txt, rng.choice([0, 0, 1, 7, 64])))
+            out.append(mk_raw(txt, rand_buf(rng)))
     return out
 
 
@@ -1136,7 +1136,7 @@ def shrink_candidates(case):
 # ------------------------------------------------------------------------------------------ generators
 
 TEXT_PIECES = ['a', 'Z', '0', 'name', 'x y', '<', '>', '&', '"', "'", '<tag>', '&amp;', '&lt;', ']]>', '<![CDATA[',
-               'é', 'ß', '日本', '€', '\U0001d11e', 'Ж', 'a\nb', 'a\tb', 'a  b', ' ',
+               'é', 'ß', '日本', '€', '\U0001d11e', 'Ж', 'a\nb', 'a\tb', 'a  b', ' ', 'l1\nl2\n\nl4', '\n', 'x\n y',
                '　', '%s', '{}', '\\', '/', '=', ';', '#', '--', '?>', '​', 'A' * 9]
 
 
@@ -1228,6 +1228,17 @@ def rand_labels(rng):
     return out
 
 
+def rand_buf(rng):
+    """parser buffer size: default, or every size from 1 to 16 bytes (smaller than most text nodes, so that
+    newline-containing metadata / multi-row ASCII data / MatrixData are split inside and at the newlines), or larger"""
+    r = rng.random()
+    if r < 0.25:
+        return 0
+    if r < 0.8:
+        return rng.randrange(1, 17)
+    return rng.choice([17, 31, 64, 100, 1000])
+
+
 def rand_image(rng, zero=False):
     uniform = rng.random() < 0.5
     enc = rng.choice(['ASCII', 'B64BIN', 'B64GZ']) if uniform else None
@@ -1235,7 +1246,7 @@ def rand_image(rng, zero=False):
     endian = rng.choice(['LittleEndian', 'BigEndian']) if uniform else None
     n = rng.choice([0, 1, 1, 2, 3, 4])
     return {'arrays': [rand_array(rng, enc, order, endian, zero and i == 0) for i in range(n)], 'meta': rand_meta(rng),
-            'labels': rand_labels(rng), 'buf': rng.choice([0, 1, 7, 64]),
+            'labels': rand_labels(rng), 'buf': rand_buf(rng),
             'variant': rng.choice(['plain', 'plain', 'pretty', 'cdata']), 'version': rng.choice(['1.0', '1.0', '1']),
             'hops': rng.choice([1, 1, 2])}
 
